@@ -328,7 +328,8 @@ Qed.
 Lemma lookup_forall (P : nat * spec -> Prop) tbl n v :
   Forall (fun kv => P (snd kv)) tbl -> lookup n tbl = Some v -> P v.
 Proof.
-  induction 1 as [|[k w] l Hx Hl IH]; simpl; [discriminate|].
+  induction 1 as [|[k w] l Hx Hl IH]; [discriminate|].
+  change (lookup n ((k, w) :: l)) with (if String.eqb n k then Some w else lookup n l).
   destruct (String.eqb n k); [intros E; inversion E; subst; exact Hx|exact IH].
 Qed.
 
